@@ -68,6 +68,8 @@ impl<'a> Expression<'a> {
         }
 
         for n in (0..state_count).rev() {
+            #[cfg(grex_verif)]
+            crate::verif::point("expr.eliminate");
             if a[(n, n)].is_some() {
                 b[n] = Self::concatenate(
                     &Self::repeat_zero_or_more_times(&a[(n, n)], config),
